@@ -135,14 +135,17 @@ class GuardWalker:
 					self.walk_block(f, h.body, g, path, cenv)
 				self.walk_block(f, s.orelse, g, path, cenv)
 				self.walk_block(f, s.finalbody, g, path, cenv)
-			elif isinstance(s, ast.Assign):
+			elif isinstance(s, ast.Assign) or (isinstance(s, ast.AnnAssign) and s.value is not None):
+				# an annotated local (`cached: Cached[T] = ctor(...)`) is bound like a plain one: the VALUE says which class was selected, the
+				# annotation only names their common base
 				self.expr(f, s.value, g, path, cenv)
-				if len(s.targets) == 1 and isinstance(s.targets[0], ast.Name):
+				tgts = s.targets if isinstance(s, ast.Assign) else [s.target]
+				if len(tgts) == 1 and isinstance(tgts[0], ast.Name):
 					cv = self.class_value(f, s.value, g, cenv)
 					if cv is not None:
-						cenv[s.targets[0].id] = cv
+						cenv[tgts[0].id] = cv
 					else:
-						cenv.pop(s.targets[0].id, None)
+						cenv.pop(tgts[0].id, None)
 			else:
 				for child in ast.iter_child_nodes(s):
 					if isinstance(child, ast.expr):
